@@ -261,7 +261,18 @@ func expectedApplied(st *incrStream, c incrConf, startDB int) []applied {
 		case "select":
 			srcDB, _ = strconv.Atoi(string(args[0]))
 			continue
-		case "ping", "multi", "exec", "opinfo":
+		case "ping":
+			// a keep-alive of the source is forwarded like any command unless the selected database is filtered
+			if srcDB >= 0 && !c.filt.dbPass(srcDB) {
+				continue
+			}
+			db := srcDB
+			if c.targetDB != -1 {
+				db = c.targetDB
+			}
+			out = append(out, applied{db: db, name: name, args: args, end: sc.end})
+			continue
+		case "multi", "exec", "opinfo":
 			continue
 		case "publish":
 			if len(args) > 0 && strings.EqualFold(string(args[0]), "__sentinel__:hello") {
@@ -307,6 +318,7 @@ type incrInst struct {
 	sentAt   []sentMark // stream position -> time it had been handed to the syncer
 	mu       sync.Mutex
 	stopped  bool
+	early    []logcap.Abort // aborts noticed while the stream was still being delivered
 }
 
 var incrSlots = make(chan int, 64)
@@ -354,7 +366,47 @@ func (in *incrInst) deliveredAt(pos int64) time.Time {
 }
 
 // feed delivers the stream in fragments with pauses.
+// feed delivers the stream in the scripted fragments. The pipe to the syncer is unbuffered, so a syncer that
+// has aborted (or stopped reading) would block the delivery for ever: the delivery is abandoned as soon as an
+// abort of this instance is recorded, or 30 s after the script should have ended.
 func (in *incrInst) feed(data []byte, splits []int, delays []time.Duration) {
+	done := make(chan struct{})
+	go func() { defer close(done); in.feedSync(data, splits, delays) }()
+	limit := 30 * time.Second
+	for _, d := range delays {
+		limit += d
+	}
+	deadline := time.NewTimer(limit)
+	defer deadline.Stop()
+	tick := time.NewTicker(50 * time.Millisecond)
+	defer tick.Stop()
+	abandon := func() {
+		in.pw.CloseWithError(io.ErrClosedPipe)
+		<-done
+		in.mu.Lock()
+		in.lastByte = time.Now().Add(-time.Hour) // nothing more will arrive: do not wait for it
+		in.mu.Unlock()
+	}
+	for {
+		select {
+		case <-done:
+			return
+		case <-tick.C:
+			if ab := logcap.Cap.TakeAbortsOf(func(a logcap.Abort) bool { return a.Parent == in.gid || a.Gid == in.gid }); len(ab) > 0 {
+				in.mu.Lock()
+				in.early = append(in.early, ab...)
+				in.mu.Unlock()
+				abandon()
+				return
+			}
+		case <-deadline.C:
+			abandon()
+			return
+		}
+	}
+}
+
+func (in *incrInst) feedSync(data []byte, splits []int, delays []time.Duration) {
 	prev := 0
 	mark := func(upto int) {
 		in.mu.Lock()
@@ -392,8 +444,8 @@ func (in *incrInst) observed() []applied {
 	var out []applied
 	for _, c := range in.srv.LogCopy() {
 		switch c.Name {
-		case "auth", "select", "multi", "exec", "ping", "info", "hgetall", "exists", "hdel":
-			continue // connection set-up, transaction markers, keep-alives, and the checkpoint loader's reads
+		case "auth", "select", "multi", "exec", "info", "hgetall", "exists", "hdel":
+			continue // connection set-up, transaction markers, and the checkpoint loader's reads
 		}
 		if in.isOwn(c) {
 			continue
@@ -405,7 +457,11 @@ func (in *incrInst) observed() []applied {
 
 // aborts returns abort records of this instance's goroutines.
 func (in *incrInst) aborts() []logcap.Abort {
-	return logcap.Cap.TakeAbortsOf(func(a logcap.Abort) bool { return a.Parent == in.gid || a.Gid == in.gid })
+	in.mu.Lock()
+	out := in.early
+	in.early = nil
+	in.mu.Unlock()
+	return append(out, logcap.Cap.TakeAbortsOf(func(a logcap.Abort) bool { return a.Parent == in.gid || a.Gid == in.gid })...)
 }
 
 func expectedStopAbort(msg string) bool {
@@ -448,9 +504,18 @@ func (in *incrInst) reap() {
 }
 
 // waitApplied waits until the target has applied at least n data commands or the bound expires.
-func (in *incrInst) waitApplied(n int, bound time.Duration) {
+func (in *incrInst) waitApplied(n int, bound time.Duration) { in.waitFor(n, bound, true) }
+
+// waitData is waitApplied counting data commands only (forwarded keep-alives are not counted).
+func (in *incrInst) waitData(n int, bound time.Duration) { in.waitFor(n, bound, false) }
+
+func (in *incrInst) waitFor(n int, bound time.Duration, pings bool) {
 	for {
-		if len(in.observed()) >= n {
+		obs := in.observed()
+		if !pings {
+			obs = withoutPings(obs)
+		}
+		if len(obs) >= n {
 			return
 		}
 		in.mu.Lock()
